@@ -209,6 +209,8 @@ def scenario_for(seed, index, tier):
                                ['connect', 'wait_play', 'write', 'write',
                                 rng.choice(['disc', 'disc_imm', 'connect'])],
                                ['write'],
+                               ['connect', 'wait_play', 'write_bad', 'nap',
+                                rng.choice(['disc', 'connect', 'status'])],
                                ['status_hs', 'wait_play'],
                                ['status_hp', 'wait_play'],
                                ['disc', 'connect', 'wait_quiet', 'connect',
@@ -490,6 +492,26 @@ def execute(scenario, tape):
                                 in_play(last_conn_base):
                             pkt = serverbound.play.ChatPacket(message='w')
                             call('write', k, conn.write_packet, pkt)
+                    elif op == 'write_bad':
+                        # a queued packet that cannot be serialised (its
+                        # field was never set): the networking thread fails
+                        # in its WRITE phase; the object must stay usable
+                        app_ = live_long_app()
+                        if isinstance(conn.reactor, PlayingReactor) and \
+                                in_play(last_conn_base) and \
+                                len(scenario['threads']) == 1 and \
+                                app_ is not None and \
+                                app_.conn.index >= last_conn_base:
+                            call('write', k, conn.write_packet,
+                                 serverbound.play.ChatPacket()).bad = True
+                            # (nobody calls disconnect() while that packet
+                            # is still queued - a flush that trips over the
+                            # caller's own broken packet is the caller's
+                            # problem - so wait for the thread to hit it)
+                            w.wait_until(lambda: any(
+                                e[1] == 'AttributeError' and
+                                'message' in e[2] for e in st['errs'])
+                                or quiet(), budget=True)
                     elif op == 'disc':
                         call('disc', k, conn.disconnect)
                     elif op == 'disc_imm':
@@ -852,7 +874,15 @@ def check(scenario, w, st, res):
                         ob()
                         res.probes['undisturbed-probe'] = \
                             res.probes.get('undisturbed-probe', 0) + 1
-                        if r.extra['probe'] != 'answered':
+                        doomed = any(
+                            e[1] == 'AttributeError' and 'message' in e[2]
+                            for e in st['errs'])
+                        if doomed:
+                            # the session under the probe was brought down by
+                            # the unserialisable packet this history queued
+                            # (write_bad), not by the refused call
+                            res.probes['probe-on-doomed-session'] = 1
+                        elif r.extra['probe'] != 'answered':
                             V.append(('C16/active-session-disturbed',
                                       {'after': 'refused ' + r.op,
                                        'probe': r.extra['probe'],
@@ -982,6 +1012,11 @@ def definitely_active(scenario, w, calls, r, live_at):
     invocation of r (and stays so until r returns), else None."""
     if len(scenario['allowed']) != 1:
         return None
+    if r.by == 'handler':
+        # made from an exception handler: that session has just failed
+        # (possibly for a reason of the client's own, e.g. an unserialisable
+        # queued packet, with the server none the wiser)
+        return None
     prev = [o for o in calls if o.op in ('connect', 'status', 'disc',
                                          'disc_imm')
             and o is not r and o.r.inv < (r.r.ret or 10**12)]
@@ -1012,6 +1047,12 @@ def definitely_active(scenario, w, calls, r, live_at):
         if o.r.ret is None or o.r.ret > c.r.inv:
             return None
     if c.net_thread:
+        return None
+    # ... whose session this history did not bring down itself by queueing an
+    # unserialisable packet (write_bad)
+    if any(getattr(o, 'bad', False) and o.r is not None and
+           o.r.inv > c.r.inv and o.r.inv < (r.r.ret or 10**12)
+           for o in calls):
         return None
     # ... made when nothing was alive (no old thread can interfere) ...
     if live_at(c.r.inv):
